@@ -227,6 +227,9 @@ func runJob(j job) (r result) {
 			if !bind(fmt.Sprintf("h%d", x), "(make-hash-table)") {
 				return
 			}
+		case "let":
+			// a variable of the scope the routines are started from: shared by all of them
+			scope.Let(slip.Symbol(fmt.Sprintf("v%d", x)), slip.Fixnum(0))
 		}
 	}
 	for _, src := range j.Setup {
@@ -327,21 +330,9 @@ loop:
 func Worker(ctx *common.Ctx) {
 	defineBuiltins()
 	s := slip.NewScope()
-	// the printer keeps a global indentation buffer that it grows on demand without synchronisation (known
-	// finding C17-printer-spaces-race, which has its own cold-process witness); unless told otherwise the
-	// worker grows it once, sequentially, so that not every run that prints an error is flagged by it
-	warm := "nil"
-	if os.Getenv("VERIF_C17_COLD") == "" {
-		nest := "x"
-		for k := 0; k < 90; k++ {
-			nest = "(aaaa " + nest + ")"
-		}
-		warm = "(write-to-string '" + nest + " :pretty t :right-margin 400)"
-	}
 	for _, src := range []string{
 		"(defclass c17cell () ((v :initform 0)))",
 		"(defflavor c17fcell ((v 0)) () :gettable-instance-variables :settable-instance-variables)",
-		warm,
 	} {
 		if o := common.EvalIn(s, src); o.Err != "" {
 			fmt.Fprintln(os.Stderr, "worker setup failed:", src, o.Err, o.Msg)
